@@ -3,6 +3,8 @@ CONSTANTS
   Accounts = {"a1", "a2", "a3", "a4", "a5"}
   Denoms = {"d1", "d2", "d3"}
   CoinLists = {}
+  MetaDenoms = {}
+  MetaVals = {}
   Cap = 0
 INVARIANT ObsInv
 PROPERTY OkMatches
